@@ -29,10 +29,17 @@ func TestWitness(t *testing.T) {
 	ws := []w{}
 	add := func(id string, c maskCase) { ws = append(ws, w{id, "mask", c}) }
 	add(fNegID, one(wIDL, "$.neg"))
-	add(fAtoi, one(wIDL2, "$.l[99999999999999999999]"))
-	add(fQuoteEOF, one(wIDL2, `$.m{"\`))
-	add(fInt32, one(wIDL2, "$.3000000000"))
-	c := one(wIDL2, `$.m{"a}`)
+	// the property demands an error (and no panic) for these three
+	c := one(wIDL2, "$.l[99999999999999999999]")
+	c.Mode = "invalid:malformed_index_not_integer"
+	add(fAtoi, c)
+	c = one(wIDL2, `$.m{"\`)
+	c.Mode = "invalid:malformed_unterminated_quote"
+	add(fQuoteEOF, c)
+	c = one(wIDL2, "$.3000000000")
+	c.Mode = "invalid:unknown_field_id"
+	add(fInt32, c)
+	c = one(wIDL2, `$.m{"a}`)
 	c.Mode = "invalid:malformed_unterminated_quote"
 	add(fBadQuote, c)
 	c = one(wIDL2, "$.s")
